@@ -96,10 +96,21 @@ Proof.
   - destruct (existsb _ _); [|discriminate]. inversion Hl; subst. simpl in He. discriminate.
 Qed.
 
+Lemma mark_ginv w l : ginv w -> ginv (set_rec w l (mark_rec (rec_of w l))).
+Proof.
+  intros G l' r' e Hl He. unfold set_rec in *; cbn [w_recs w_last] in *.
+  destruct (N.eq_dec l' l) as [->|Hn].
+  - rewrite lookup_update_same in Hl. inversion Hl; subst. cbn [mark_rec r_data r_run r_deps] in *.
+    unfold rec_of in *. destruct (lookup l (w_recs w)) as [r0|] eqn:E; [|simpl in He; discriminate].
+    exact (G l r0 e E He).
+  - rewrite (lookup_update_other _ _ _ _ Hn) in Hl. apply (G l' r' e Hl He).
+Qed.
+
 Lemma build_ginv c w l : ginv w -> ginv (o_w (build c w l)).
 Proof.
   intros G. unfold build. destruct (link_ok _).
-  - unfold run_order; cbn [o_w]. apply fold_ginv. apply load_ginv, G.
+  - cbn [o_w]. apply premark_inv; [|intros w' l0 H; apply mark_ginv; exact H].
+    unfold run_order; cbn [o_w]. apply fold_ginv. apply load_ginv, G.
   - apply load_ginv, G.
 Qed.
 
@@ -215,8 +226,7 @@ Theorem never_stale h c l :
   forall x v, lookup x (o_vis o) = Some v -> current (o_w o) x.
 Proof.
   intros w Hdry Hcr Hlink. cbv zeta.
-  assert (Eb : build c w l = run_order c (load w) (order_of (w_proj w) l) l).
-  { unfold build. rewrite load_proj, Hlink. reflexivity. }
+  assert (Eb : build c w l = run_order c (load w) (order_of (w_proj w) l) l) by (apply build_nocrash; assumption).
   rewrite Eb. clear Eb. intros Hallok x v Hx.
   apply (never_stale_run c (load w) (order_of (w_proj w) l) Hdry Hcr) with (v := v); try assumption.
   apply load_ginv, history_ginv.
@@ -291,6 +301,7 @@ Proof.
   { induction h as [|o h IH]; intros w R; simpl; [exact R|]. apply IH.
     destruct o as [pr|p [c|]|c l|]; simpl; try exact R.
     unfold build. destruct (link_ok _); [|exact R].
+    cbn [o_w]. apply premark_inv; [|intros w' l0 H; exact H].
     unfold run_order; cbn [o_w]. apply fold_runs. exact R. }
   apply H. intros l sn Hl. simpl in Hl. discriminate.
 Qed.
